@@ -128,7 +128,7 @@ PROPS['C06'] = {
     'vx': {},
     'kx': {
         'fmtdata': 'original whitespace is reduced to (number of LF, blanks after the last LF without trailing CR); nothing else of it survives',
-        'spacing': 'S4: the spacing table does not read line-break / indentation counters',
+        'spacing': 'S4, for ALL token kinds and ALL u16 counters on 3 tokens: the spacing rule is a function of the token kinds and of whether each gap is empty - not of the amount of blanks, the indentation, or blanks versus a line break (gaps touching a comment kept, as the property says)',
         'lexcomplex': 'comment kinds depend only on first-on-line (LF before) / LF inside',
     },
     'not_decided': ['that parser and search never read FormattingData beyond the blank-line grouping', 'that write-back overwrites the counters of every visited token'],
